@@ -20,14 +20,19 @@ type SEnv struct {
 	nowOld string           // value of $now in the old state (for fresh())
 	qn     *int
 	funs   map[string]FunDecl // witness functions: spec name -> declared symbol (Name = SMT symbol)
+	bound  map[string]bool    // quantified variables in scope (they shadow program variables)
 }
 
 func (env *SEnv) with(name string, v Val) *SEnv {
-	n := &SEnv{vars: map[string]Val{}, act: env.act, header: env.header, pkg: env.pkg, nowOld: env.nowOld, qn: env.qn, funs: env.funs}
+	n := &SEnv{vars: map[string]Val{}, act: env.act, header: env.header, pkg: env.pkg, nowOld: env.nowOld, qn: env.qn, funs: env.funs, bound: map[string]bool{}}
 	for k, x := range env.vars {
 		n.vars[k] = x
 	}
+	for k := range env.bound {
+		n.bound[k] = true
+	}
 	n.vars[name] = v
+	n.bound[name] = true
 	return n
 }
 
@@ -239,6 +244,15 @@ func (fx *FX) specVal(x *SX, env *SEnv, cur, old *State) Val {
 	case "nil":
 		return Val{T: "nil", S: "Nil"}
 	case "id":
+		if env.bound[x.Name] {
+			return env.vars[x.Name]
+		}
+		if env.act != nil && env.header != nil {
+			// inside a loop invariant a (possibly reassigned) parameter denotes its current value
+			if v, ok := env.act.localVar(x.Name, env.header, cur); ok {
+				return v
+			}
+		}
 		if v, ok := env.vars[x.Name]; ok {
 			return v
 		}
